@@ -10,6 +10,7 @@ import (
 	"go/types"
 	"os"
 	"reflect"
+	"regexp"
 	"sort"
 	"strings"
 
@@ -48,6 +49,22 @@ func (p *Prog) inlineOverlay() (map[string][]byte, []string) {
 		// nobody in the module calls is a new entry point and stays as it is
 		if f.Obj.Exported() && len(ci.callers[f]) == 0 {
 			continue
+		}
+		// ... and only on a type the reference tree already has (or at package
+		// level): the exported methods of a new private type are that type's
+		// interface, which the rules recognise by role
+		if f.Obj.Exported() && f.Decl.Recv != nil {
+			prefix := f.Name[:strings.LastIndex(f.Name, ".")+1]
+			knownType := false
+			for k := range knownFuncs {
+				if strings.HasPrefix(k, prefix) {
+					knownType = true
+					break
+				}
+			}
+			if !knownType {
+				continue
+			}
 		}
 		if strings.HasSuffix(p.Fset.Position(f.Body.Pos()).Filename, "testing.go") {
 			continue
@@ -147,7 +164,14 @@ func (p *Prog) inlineOverlay() (map[string][]byte, []string) {
 			off := p.Fset.Position(j.call.Pos()).Offset
 			inlineSeq++
 			_ = i
-			if p.inlineOne(fset, file, off, j, fmt.Sprintf("_i%d", inlineSeq)) {
+			// locals of a helper that has no error result are marked ("h"): an
+			// error such a helper deals with is dealt with - it could not have
+			// reported it - and R-ERR/L2 does not hold the caller to it
+			sfx := fmt.Sprintf("_i%d", inlineSeq)
+			if !hasErrorResult(j.callee) {
+				sfx += "h"
+			}
+			if p.inlineOne(fset, file, off, j, sfx) {
 				changed = true
 				inlinedAll[j.callee]++
 				notes = append(notes, fmt.Sprintf("inlined helper %s into %s at %s", j.callee.Name, j.caller.Name, p.Pos(j.call)))
@@ -340,6 +364,27 @@ func isPureExpr(e ast.Expr) bool {
 // call at byte offset off. Returns false if the call form is not supported.
 func (p *Prog) inlineOne(fset *token.FileSet, file *ast.File, off int, j inlineJob, suffix string) bool {
 	ok := p.inlineOneImpl(fset, file, off, j, suffix)
+	if !ok {
+		// last resort for a form the statement-level inliner refuses (a body
+		// with closures in its defers): the pure delegation, collapsed
+		var call *ast.CallExpr
+		var path, stack []ast.Node
+		ast.Inspect(file, func(n ast.Node) bool {
+			if n == nil {
+				stack = stack[:len(stack)-1]
+				return true
+			}
+			stack = append(stack, n)
+			if c, isCall := n.(*ast.CallExpr); isCall && call == nil && fset.Position(c.Pos()).Offset == off {
+				call = c
+				path = append([]ast.Node{}, stack...)
+			}
+			return true
+		})
+		if call != nil && p.collapseDelegation(file, path, call, j) {
+			return true
+		}
+	}
 	if !ok && os.Getenv("GP_INLINE_DEBUG") != "" {
 		fmt.Fprintf(os.Stderr, "INLINE-SKIP %s into %s at %s: %s\n", j.callee.Name, j.caller.Name, p.Pos(j.call), inlineWhy)
 	}
@@ -379,9 +424,6 @@ func (p *Prog) inlineOneImpl(fset *token.FileSet, file *ast.File, off int, j inl
 		return false
 	}
 	parent := path[len(path)-2]
-	if p.collapseDelegation(file, path, call, j) {
-		return true
-	}
 	// x := A && H(...)  ->  x := A; if x { x = H(...) }   (same evaluation order)
 	if be, ok := parent.(*ast.BinaryExpr); ok && be.Op == token.LAND && ast.Unparen(be.Y) == ast.Expr(call) && len(path) >= 4 {
 		if as, ok := path[len(path)-3].(*ast.AssignStmt); ok && len(as.Lhs) == 1 && len(as.Rhs) == 1 && as.Rhs[0] == ast.Expr(be) {
@@ -2081,3 +2123,21 @@ func isBackgroundCtx(e ast.Expr) bool {
 	pk, ok := se.X.(*ast.Ident)
 	return ok && pk.Name == "context" && pk.Obj == nil
 }
+
+func hasErrorResult(f *Func) bool {
+	if f == nil || f.Obj == nil {
+		return true
+	}
+	sig, ok := f.Obj.Type().(*types.Signature)
+	if !ok {
+		return true
+	}
+	for i := 0; i < sig.Results().Len(); i++ {
+		if isErrorType(sig.Results().At(i).Type()) {
+			return true
+		}
+	}
+	return false
+}
+
+var handledSuffix = regexp.MustCompile(`_i\d+h$`)
